@@ -87,6 +87,8 @@ def t_cfg(b, e):
         if any(x is e for x in t["events"]): return t["cfg"]
 def c20(b):
     t, i, e = first(b["traces"], lambda e: e.get("e") == "registered" and len(e["disk"]) >= 2); e["disk"][-1][-1] = "tampered"
+def gemap(b):
+    t, i, e = first(b["traces"], lambda e: e.get("e") == "gemap" and not e["exc"] and len(e["genes"]) > 1 and e["prog"]["kids"]); e["genes"][1] += 1
 def derive(b):
     t, i, e = first(b["traces"], lambda e: e.get("e") == "derivation" and e["decisions"]); e["decisions"][-1]["c"] += 1
 
@@ -95,7 +97,7 @@ CORRUPT = {"C18": [("harness.drv_c18", c18)], "C05": [("harness.drv_c05", c05)],
            "C16": [("harness.drv_steps", c16)], "C17": [("harness.drv_steps", c17)], "C01": [("harness.drv_syn", c01)],
            "C02": [("harness.drv_syn", c02)], "C03": [("harness.drv_syn", c03), ("harness.drv_derive", derive)],
            "C10": [("harness.drv_syn", c10)], "C11": [("harness.drv_syn", c11)], "C04": [("harness.drv_c04", c04)],
-           "C06": [("harness.drv_c06", c06)], "C07": [("harness.drv_c07", c07)], "C08": [("harness.drv_c08", c08)],
+           "C06": [("harness.drv_c06", c06)], "C07": [("harness.drv_c07", c07), ("harness.drv_gemap", gemap)], "C08": [("harness.drv_c08", c08)],
            "C09": [("harness.drv_c09", c09)], "C19": [("harness.drv_c19", c19)], "C20": [("harness.drv_c20", c20)]}
 
 def main():
